@@ -38,7 +38,7 @@ End Order.
 
 (* ---- the float instance ----------------------------------------------------------- *)
 
-Open Scope float_scope.
+Local Open Scope float_scope.
 
 Definition z2f (z : Z) : float :=
   match z with
